@@ -382,3 +382,145 @@ func c20TrimScan(c *Ctx, sb *strings.Builder) {
 	fmt.Fprintf(sb, "/-- linetrim.go WriteLineNoWrap, AutoTrim on, `runes = []rune(s)`: the scan, statement by statement; the result is the `hi` of the\n`runes[:hi]` that is written -/\ndef trimScan (fuel : Nat) (runes : List Int) (computedCols : Int) : Except String Int := do\n  let s : T := { i := %s, visibleRunes := %s }\n%s\n  let hi ← %s\n  if 0 ≤ hi ∧ hi ≤ (runes.length : Int) then pure hi else .error \"slice bounds out of range\"\n\n",
 		inits["i"], inits["visibleRunes"], strings.Join(steps, "\n"), hi)
 }
+
+// ---- linetrim.go: the start-up state (`var AutoTrim`, `const defaultRows, defaultCols`, `init()`) ----
+//
+//	def autoTrimInitial : Bool, defaultRows / defaultCols : Int
+//	def initFn (tty : Option (Int × Int)) : Bool × Int × Int      -- (AutoTrim, computedRows, computedCols) after init()
+//
+// init() must have the shape `if rows, cols, ok := termstate.GetTermRowsCols(); ok { A… } else { B… }` where every
+// statement of A / B assigns to AutoTrim, computedRows, computedCols (single or parallel assignment) from
+// true/false, rows, cols, defaultRows, defaultCols or integer literals.  `tty = some (rows, cols)` is "ok".
+
+func c20Init(c *Ctx, sb *strings.Builder) {
+	const lt = "pkg/multiterm/linetrim.go"
+	names := []string{"autoTrimInitial", "defaultRows", "defaultCols", "initFn"}
+	fail := func(why string) {
+		fmt.Fprintf(sb, "-- linetrim.go init: %s\n", why)
+		for _, n := range names {
+			sb.WriteString(untranslatable(n))
+		}
+	}
+	at := c.Var(lt, "AutoTrim")
+	atId, ok := at.(*ast.Ident)
+	if !ok || (atId.Name != "true" && atId.Name != "false") {
+		fail("var AutoTrim is not a boolean literal")
+		return
+	}
+	dr, ok1 := IntLit(c.Var(lt, "defaultRows"))
+	dc, ok2 := IntLit(c.Var(lt, "defaultCols"))
+	if !ok1 || !ok2 {
+		fail("defaultRows / defaultCols are not integer constants")
+		return
+	}
+	fd := c.Func(lt, "init")
+	if fd == nil || fd.Body == nil || len(fd.Body.List) != 1 {
+		fail("init() missing or not a single statement")
+		return
+	}
+	ifs, ok := fd.Body.List[0].(*ast.IfStmt)
+	if !ok || ifs.Init == nil || ifs.Else == nil {
+		fail("init() is not if/else")
+		return
+	}
+	ini, ok := ifs.Init.(*ast.AssignStmt)
+	if !ok || ini.Tok != token.DEFINE || len(ini.Lhs) != 3 || len(ini.Rhs) != 1 {
+		fail("init(): if-initialiser")
+		return
+	}
+	call, ok := ini.Rhs[0].(*ast.CallExpr)
+	if !ok || c20CallName(call) != "termstate.GetTermRowsCols" || len(call.Args) != 0 {
+		fail("init(): initialiser is not termstate.GetTermRowsCols()")
+		return
+	}
+	var lhs [3]string
+	for i, e := range ini.Lhs {
+		id, ok := e.(*ast.Ident)
+		if !ok {
+			fail("init(): initialiser names")
+			return
+		}
+		lhs[i] = id.Name
+	}
+	if cid, ok := ifs.Cond.(*ast.Ident); !ok || cid.Name != lhs[2] {
+		fail("init(): condition is not the ok result")
+		return
+	}
+	els, ok := ifs.Else.(*ast.BlockStmt)
+	if !ok {
+		fail("init(): else if")
+		return
+	}
+	bad := ""
+	val := func(e ast.Expr) (string, string) {
+		switch v := e.(type) {
+		case *ast.Ident:
+			switch v.Name {
+			case "true", "false":
+				return v.Name, "bool"
+			case lhs[0]:
+				return "ttyRows", "int"
+			case lhs[1]:
+				return "ttyCols", "int"
+			case "defaultRows", "defaultCols":
+				return v.Name, "int"
+			}
+		case *ast.BasicLit:
+			if n, ok := IntLit(v); ok && v.Kind == token.INT {
+				return fmt.Sprintf("(%d : Int)", n), "int"
+			}
+		}
+		bad = "init(): value " + c.Print(e)
+		return "default", "?"
+	}
+	branch := func(list []ast.Stmt) string {
+		var sbb strings.Builder
+		for _, st := range list {
+			as, ok := st.(*ast.AssignStmt)
+			if !ok || as.Tok != token.ASSIGN || len(as.Lhs) != len(as.Rhs) {
+				bad = "init(): statement " + c.Print(st)
+				return "s"
+			}
+			// parallel assignment: all right-hand sides are evaluated first (they never mention the targets here)
+			upd := []string{}
+			for i, l := range as.Lhs {
+				id, ok := l.(*ast.Ident)
+				v, ty := val(as.Rhs[i])
+				if !ok {
+					bad = "init(): target"
+					return "s"
+				}
+				switch {
+				case id.Name == "AutoTrim" && ty == "bool":
+					upd = append(upd, "autoTrim := "+v)
+				case id.Name == "computedRows" && ty == "int":
+					upd = append(upd, "rows := "+v)
+				case id.Name == "computedCols" && ty == "int":
+					upd = append(upd, "cols := "+v)
+				default:
+					bad = "init(): target " + id.Name
+					return "s"
+				}
+			}
+			sbb.WriteString("let s : Env := { s with " + strings.Join(upd, ", ") + " }; ")
+		}
+		sbb.WriteString("s")
+		return sbb.String()
+	}
+	thenB := branch(ifs.Body.List)
+	elseB := branch(els.List)
+	// the package-level initial values of computedRows / computedCols
+	cr, okr := IntLit(c.Var(lt, "computedRows"))
+	cc, okc := IntLit(c.Var(lt, "computedCols"))
+	if !okr || !okc {
+		bad = "var computedRows, computedCols are not integer literals"
+	}
+	if bad != "" {
+		fail(bad)
+		return
+	}
+	fmt.Fprintf(sb, "/-- linetrim.go: `var AutoTrim = …` -/\ndef autoTrimInitial : Bool := %s\n\n", atId.Name)
+	fmt.Fprintf(sb, "/-- linetrim.go: const defaultRows -/\ndef defaultRows : Int := %d\n\n/-- linetrim.go: const defaultCols -/\ndef defaultCols : Int := %d\n\n", dr, dc)
+	sb.WriteString("/-- the package-level state of linetrim.go -/\nstructure Env where\n  autoTrim : Bool\n  rows : Int\n  cols : Int\n  deriving DecidableEq, Repr\n\n")
+	fmt.Fprintf(sb, "/-- linetrim.go init(): `tty = some (rows, cols)` when termstate.GetTermRowsCols() reports ok -/\ndef initFn (tty : Option (Int × Int)) : Env :=\n  let s : Env := { autoTrim := autoTrimInitial, rows := (%d : Int), cols := (%d : Int) }\n  match tty with\n  | some (ttyRows, ttyCols) => (%s)\n  | none => (%s)\n\n", cr, cc, thenB, elseB)
+}
